@@ -29,15 +29,26 @@ SetLen(b, n) == [i \in 1..Len(b) |-> IF i = 3 THEN n \div 256 ELSE IF i = 4 THEN
 Value(b, a) == Slice(b, a.off + 5, a.len)
 AttrEnd(a) == a.off + 4 + Pad4(a.len)        \* 0-based offset just after the padded attribute
 
-(* Tolerant TLV walk of b from offset `off` to the end of b. *)
-RECURSIVE Walk(_, _, _)
-Walk(b, off, acc) ==
-  IF off = Len(b) THEN [tiled |-> TRUE, as |-> acc]
-  ELSE IF Len(b) - off < 4 THEN [tiled |-> FALSE, as |-> acc, at |-> off, why |-> "header"]
+(* Tolerant TLV walk of b from offset `off` to the end of b.                                              *)
+(* TLC pays for every level of a recursion on every evaluation below it, so a walk that is one recursion   *)
+(* deep per attribute is quadratic in the number of attributes.  The walk is therefore cut into runs: WalkN *)
+(* visits at most n attributes, WalkM at most m runs of 32, Walk as many of those as it takes; the result is *)
+(* that of the plain recursion (field `more` aside), the depth is 64 + attributes / 1024.                 *)
+RECURSIVE WalkN(_, _, _, _)
+WalkN(b, off, acc, n) ==
+  IF n = 0 THEN [more |-> TRUE, off |-> off, as |-> acc]
+  ELSE IF off = Len(b) THEN [more |-> FALSE, tiled |-> TRUE, as |-> acc]
+  ELSE IF Len(b) - off < 4 THEN [more |-> FALSE, tiled |-> FALSE, as |-> acc, at |-> off, why |-> "header"]
   ELSE LET len == U16(b, off + 3) IN
-       IF 4 + len > Len(b) - off THEN [tiled |-> FALSE, as |-> acc, at |-> off, why |-> "value"]
-       ELSE IF 4 + Pad4(len) > Len(b) - off THEN [tiled |-> FALSE, as |-> acc, at |-> off, why |-> "padding"]
-       ELSE Walk(b, off + 4 + Pad4(len), Append(acc, [type |-> U16(b, off + 1), off |-> off, len |-> len]))
+       IF 4 + len > Len(b) - off THEN [more |-> FALSE, tiled |-> FALSE, as |-> acc, at |-> off, why |-> "value"]
+       ELSE IF 4 + Pad4(len) > Len(b) - off THEN [more |-> FALSE, tiled |-> FALSE, as |-> acc, at |-> off, why |-> "padding"]
+       ELSE WalkN(b, off + 4 + Pad4(len), Append(acc, [type |-> U16(b, off + 1), off |-> off, len |-> len]), n - 1)
+RECURSIVE WalkM(_, _, _, _)
+WalkM(b, off, acc, m) ==
+  IF m = 0 THEN [more |-> TRUE, off |-> off, as |-> acc]
+  ELSE LET r == WalkN(b, off, acc, 32) IN IF r.more THEN WalkM(b, r.off, r.as, m - 1) ELSE r
+RECURSIVE Walk(_, _, _)
+Walk(b, off, acc) == LET r == WalkM(b, off, acc, 32) IN IF r.more THEN Walk(b, r.off, r.as) ELSE r
 
 \* the FINGERPRINT relation of RFC 8489 14.7 for attribute a of buffer b: CRC-32 of everything before the
 \* attribute, with the length field covering the attribute, XOR 0x5354554e
@@ -62,21 +73,30 @@ WellFormed(b) ==
    fixed by a property (C02/C17) or merely documented (as-is). *)
 Err(e) == [ok |-> FALSE, err |-> e]
 Trunc(e, a, x) == [ok |-> FALSE, err |-> "Truncated", expected |-> e, actual |-> a, exact |-> x]
-RECURSIVE ParseLoop(_, _, _)
-ParseLoop(b, off, seen) ==
-  IF off >= Len(b) THEN [ok |-> TRUE]
+\* (cut into runs like Walk: ParseN handles at most n attributes and says where it stopped)
+Fin(r) == [more |-> FALSE, res |-> r]
+RECURSIVE ParseN(_, _, _, _)
+ParseN(b, off, seen, n) ==
+  IF n = 0 THEN [more |-> TRUE, off |-> off, seen |-> seen]
+  ELSE IF off >= Len(b) THEN Fin([ok |-> TRUE])
   ELSE LET rem == Len(b) - off IN
-    IF rem < 4 THEN Trunc(8 + off, rem + 4 + off, FALSE)
+    IF rem < 4 THEN Fin(Trunc(8 + off, rem + 4 + off, FALSE))
     ELSE LET ty == U16(b, off + 1)  len == U16(b, off + 3)  padded == 4 + Pad4(len) IN
-      IF len > rem - 4 THEN Trunc(len + 4 + off, Len(b), FALSE)
-      ELSE IF FP \in seen THEN [ok |-> FALSE, err |-> "AttributeAfterFingerprint", type |-> ty]
-      ELSE IF seen # {} /\ ty \notin Ending THEN [ok |-> FALSE, err |-> "AttributeAfterIntegrity", type |-> ty]
-      ELSE IF ty \in Ending /\ ty \in seen THEN [ok |-> FALSE, err |-> "AttributeAfterIntegrity", type |-> ty]
-      ELSE IF padded > rem THEN Trunc(off + padded, off + rem, FALSE)
-      ELSE IF ty = FP /\ len < 4 THEN Trunc(4, len, FALSE)
-      ELSE IF ty = FP /\ len > 4 THEN [ok |-> FALSE, err |-> "TooLarge", expected |-> 4, actual |-> len]
-      ELSE IF ty = FP /\ ~FpOk(b, [type |-> ty, off |-> off, len |-> len]) THEN Err("FingerprintMismatch")
-      ELSE ParseLoop(b, off + padded, IF ty \in Ending THEN seen \cup {ty} ELSE seen)
+      IF len > rem - 4 THEN Fin(Trunc(len + 4 + off, Len(b), FALSE))
+      ELSE IF FP \in seen THEN Fin([ok |-> FALSE, err |-> "AttributeAfterFingerprint", type |-> ty])
+      ELSE IF seen # {} /\ ty \notin Ending THEN Fin([ok |-> FALSE, err |-> "AttributeAfterIntegrity", type |-> ty])
+      ELSE IF ty \in Ending /\ ty \in seen THEN Fin([ok |-> FALSE, err |-> "AttributeAfterIntegrity", type |-> ty])
+      ELSE IF padded > rem THEN Fin(Trunc(off + padded, off + rem, FALSE))
+      ELSE IF ty = FP /\ len < 4 THEN Fin(Trunc(4, len, FALSE))
+      ELSE IF ty = FP /\ len > 4 THEN Fin([ok |-> FALSE, err |-> "TooLarge", expected |-> 4, actual |-> len])
+      ELSE IF ty = FP /\ ~FpOk(b, [type |-> ty, off |-> off, len |-> len]) THEN Fin(Err("FingerprintMismatch"))
+      ELSE ParseN(b, off + padded, IF ty \in Ending THEN seen \cup {ty} ELSE seen, n - 1)
+RECURSIVE ParseM(_, _, _, _)
+ParseM(b, off, seen, m) ==
+  IF m = 0 THEN [more |-> TRUE, off |-> off, seen |-> seen]
+  ELSE LET r == ParseN(b, off, seen, 32) IN IF r.more THEN ParseM(b, r.off, r.seen, m - 1) ELSE r
+RECURSIVE ParseLoop(_, _, _)
+ParseLoop(b, off, seen) == LET r == ParseM(b, off, seen, 32) IN IF r.more THEN ParseLoop(b, r.off, r.seen) ELSE r.res
 
 Parse(b) ==
   LET hv == HeaderVerdict(b) IN
@@ -87,7 +107,7 @@ Parse(b) ==
 
 (* Which rejections a buffer justifies, independently of the order in which the code checks (MUST oracle
    for "a rejection names its cause"): a set of <<error name, attribute type or -1>>. *)
-Causes(b) ==
+CausesDecl(b) ==
   IF Len(b) < 20 THEN {<<"Truncated", -1>>}
   ELSE
     (IF ~IsStunType(U16(b, 1)) \/ SubSeq(b, 5, 8) # MagicCookie THEN {<<"NotStun", -1>>} ELSE {})
@@ -109,13 +129,46 @@ Causes(b) ==
          \cup (IF \E i \in 1..Len(as) : as[i].type = FP /\ as[i].len # 4
                  THEN {<<"Truncated", -1>>, <<"TooLarge", -1>>, <<"FingerprintMismatch", -1>>, <<"InvalidAttributeData", -1>>} ELSE {})
 
+\* index of the first attribute among as[lo..hi] whose type is in S (hi + 1 when there is none): halving, so that the
+\* recursion is logarithmically deep
+RECURSIVE FirstIn(_, _, _, _)
+FirstIn(as, S, lo, hi) ==
+  IF lo > hi THEN lo
+  ELSE IF lo = hi THEN (IF as[lo].type \in S THEN lo ELSE hi + 1)
+  ELSE LET mid == (lo + hi) \div 2  l == FirstIn(as, S, lo, mid) IN IF l <= mid THEN l ELSE FirstIn(as, S, mid + 1, hi)
+FirstFrom(as, S, i) == FirstIn(as, S, i, Len(as))
+
+\* the same set as CausesDecl below, computed from the positions of the first FINGERPRINT / integrity attribute / each
+\* ending type, so that buffers tiled by thousands of attributes are judged in linear time (MCStunMessage checks
+\* Causes = CausesDecl on every enumerated message)
+Causes(b) ==
+  IF Len(b) < 20 THEN {<<"Truncated", -1>>}
+  ELSE
+    (IF ~IsStunType(U16(b, 1)) \/ SubSeq(b, 5, 8) # MagicCookie THEN {<<"NotStun", -1>>} ELSE {})
+    \cup (IF U16(b, 3) + 20 > Len(b) THEN {<<"Truncated", -1>>} ELSE {})
+    \cup (IF U16(b, 3) + 20 < Len(b) THEN {<<"TooLarge", -1>>} ELSE {})
+    \cup LET w == Walk(b, 20, <<>>)
+             as == IF ~w.tiled /\ w.why # "header"
+                     THEN Append(w.as, [type |-> U16(b, w.at + 1), off |-> w.at, len |-> U16(b, w.at + 3)])
+                     ELSE w.as
+             fFp == FirstFrom(as, {FP}, 1)
+             fInt == FirstFrom(as, Integrity, 1)
+             fOf == [t \in Ending |-> FirstFrom(as, {t}, 1)]
+             fps == {k \in 1..Len(as) : as[k].type = FP} IN
+         (IF ~w.tiled THEN {<<"Truncated", -1>>} ELSE {})
+         \cup {<<"AttributeAfterIntegrity", as[i].type>> : i \in {k \in 1..Len(as) :
+                 /\ k <= fFp
+                 /\ \/ k > fInt /\ as[k].type \notin Ending
+                    \/ as[k].type \in Ending /\ k > fOf[as[k].type]}}
+         \cup {<<"AttributeAfterFingerprint", as[i].type>> : i \in {k \in 1..Len(as) : k > fFp}}
+         \cup (IF \E i \in fps : as[i].len = 4 /\ AttrEnd(as[i]) <= Len(b) /\ ~FpOk(b, as[i]) THEN {<<"FingerprintMismatch", -1>>} ELSE {})
+         \cup (IF \E i \in fps : as[i].len # 4
+                 THEN {<<"Truncated", -1>>, <<"TooLarge", -1>>, <<"FingerprintMismatch", -1>>, <<"InvalidAttributeData", -1>>} ELSE {})
+
 -----------------------------------------------------------------------------
 (* C10: what iteration and lookup expose of an accepted message.           *)
 Attrs(b) == Walk(b, 20, <<>>).as
-FirstIntegIdx(as) ==
-  IF \E i \in 1..Len(as) : as[i].type \in Integrity
-    THEN CHOOSE i \in 1..Len(as) : as[i].type \in Integrity /\ \A j \in 1..(i - 1) : as[j].type \notin Integrity
-    ELSE 0
+FirstIntegIdx(as) == LET f == FirstFrom(as, Integrity, 1) IN IF f > Len(as) THEN 0 ELSE f
 ExposedIdx(as) ==
   LET f == FirstIntegIdx(as) IN
   IF f = 0 THEN [i \in 1..Len(as) |-> i]
